@@ -25,6 +25,7 @@ CONSTANTS
   AdvMsgs = {}
   MaxAdv = 0
   Bridgers = {}
+  MaxNow = 0
   MaxHandles = 1
   MaxCtr = 7
 VIEW View
